@@ -50,6 +50,7 @@ type op struct {
 	ctx    int
 	await  int
 	dur    time.Duration
+	bad    bool // params that cannot be JSON-encoded (marshal fails before anything is written)
 }
 
 type connSpec struct {
@@ -148,10 +149,10 @@ func pickW(r *vh.Rand, ws []weighted) string {
 	return ws[0].s
 }
 
-var callMethods = []weighted{{30, "echo"}, {20, "slow"}, {7, "err"}, {5, "nh"}, {12, "async"}, {6, "callback"}, {5, "notifyback"}, {8, "pre"}, {7, "preasync"}}
+var callMethods = []weighted{{30, "echo"}, {20, "slow"}, {7, "err"}, {5, "nh"}, {12, "async"}, {6, "callback"}, {5, "notifyback"}, {8, "pre"}, {7, "preasync"}, {4, "badres"}, {4, "asyncbad"}}
 var slowMethods = []weighted{{60, "slow"}, {15, "async"}, {10, "preasync"}, {10, "echo"}, {5, "callback"}}
 var fastMethods = []weighted{{60, "echo"}, {15, "pre"}, {10, "err"}, {5, "nh"}, {10, "notifyback"}}
-var notifyMethods = []weighted{{30, "echo"}, {10, "slow"}, {10, "err"}, {8, "nh"}, {8, "async"}, {8, "notifyback"}, {10, "pre"}, {6, "preasync"}, {10, "note"}}
+var notifyMethods = []weighted{{30, "echo"}, {10, "slow"}, {10, "err"}, {8, "nh"}, {8, "async"}, {8, "notifyback"}, {10, "pre"}, {6, "preasync"}, {10, "note"}, {3, "badres"}, {3, "asyncbad"}}
 
 func genDur(r *vh.Rand, maxMicros int) time.Duration {
 	return time.Duration(1+r.Intn(maxMicros)) * time.Microsecond
@@ -180,6 +181,7 @@ func genCall(r *vh.Rand, methods []weighted) op {
 		o.await = awDouble
 		o.dur = genDur(r, 3000)
 	}
+	o.bad = r.Chance(5)
 	return o
 }
 
@@ -193,6 +195,7 @@ func genNotify(r *vh.Rand) op {
 	default:
 		o.ctx = ctxSoonCancelled
 	}
+	o.bad = r.Chance(8)
 	return o
 }
 
